@@ -122,6 +122,22 @@ func TestVerifC13Proxy(t *testing.T) {
 		}
 		s := b.String()
 		try("structured", s)
+		if i%40 == 0 {
+			// many attributes: several media sections with hundreds of attributes before the last one, no remote
+			// candidate early on
+			var mb strings.Builder
+			mb.WriteString(strings.ReplaceAll(c13SdpHead, "\r\n", nl))
+			for m, nm := 0, 2+rng.Intn(3); m < nm; m++ {
+				mb.WriteString("m=application 9 UDP/DTLS/SCTP webrtc-datachannel" + nl)
+				for a, na := 0, rng.Intn(400); a < na; a++ {
+					fmt.Fprintf(&mb, "a=x-filler:%d%s", a, nl)
+				}
+				if m == nm-1 || rng.Intn(3) == 0 {
+					mb.WriteString("a=" + c13Cand(rng) + nl)
+				}
+			}
+			try("many-attributes", mb.String())
+		}
 		if rng.Intn(3) == 0 {
 			bs := []byte(s)
 			for k := 0; k < 1+rng.Intn(3) && len(bs) > 0; k++ {
